@@ -159,8 +159,8 @@ type GlobalVarsMain struct {
 	FEU                     int
 	C1                      [21]float64 // Nitrogen content N-min
 	NAOS                    [21]float64 // Nitrogen in slowly decomposable pool (kg N ha-1)
-	MINAOS                  [4]float64  //  should be size of N
-	MINFOS                  [4]float64  // should be size of N
+	MINAOS                  [21]float64 // already mineralized N from slowly decomposable pool per layer (kg N ha-1), mixed by tillage like NAOS
+	MINFOS                  [21]float64 // already mineralized N from fast decomposable pool per layer (kg N ha-1), mixed by tillage like NFOS
 	CA                      [21]float64
 	NDG                     DualType
 	MZ                      int
